@@ -396,7 +396,11 @@ def run_stream(stream, tier, seed, workdir, search=False):
     base = seed * 1000003 + (7919 if search else 0)
     for k in range(shards):
         jobs.append((base + k, per, os.path.join(workdir, "%s-%d" % (stream["name"], k)), None))
-    with ThreadPoolExecutor(max_workers=min(16, len(jobs))) as ex:
+    # memory-hungry streams may bound how many shards run at once ("max_parallel": n or {tier: n})
+    mp = stream.get("max_parallel", 16)
+    if isinstance(mp, dict):
+        mp = mp.get(key, mp.get(tier, 16))
+    with ThreadPoolExecutor(max_workers=max(1, min(16, len(jobs), int(mp)))) as ex:
         results = list(ex.map(lambda j: run_shard(stream, hbin, dbin, j[0], j[1], tier, j[2], j[3]), jobs))
     return {"name": stream["name"], "shards": results, "harness_build_s": round(hdt, 1)}
 
